@@ -255,7 +255,7 @@ EXT = {
            ' Third round: the mutator `node_weights~getset` (the caller edits the array the object hands out and assigns it back).',
     "C02": " Added: every third case on a warm object re-weighted in place; group-indexed n.s.i. cross / internal measures of "
            "InteractingNetworks under Split."
-           " Third round: every fourth case uses non-dyadic weights (1.1/1.7/2.5) and proportions (3/10, 7/10); the twins' weights must add up to v's weight to double precision.",
+           " Third round: every fourth case uses non-dyadic weights (1.1/1.7/2.5) and proportions (3/10, 7/10); the twins' weights must add up to v's weight to double precision; link-weighted variants (n.s.i. strengths and weighted motif clusterings with a link attribute handed on by splitted_copy).",
     "C03": " Added: OrderIndependent (same queries in the opposite order on a fresh object); link-weighted variants (strengths, "
            "Fagiolo motif clustering with W^[1/3], weighted path lengths); degree assortativity; eigenvector centrality and "
            "PageRank as residual conditions."
